@@ -411,6 +411,71 @@ func chunkSpace(c0, c1 int) {
 	ctx.Add("long_chunk_streams_prefixes", 1)
 }
 
+// knownSysex: system exclusive messages whose content means something to
+// other parts of a MIDI system (time code full frame, machine control,
+// device inquiry, GM/GS/XG resets, master volume, tuning, sample dump): a
+// listener option must filter by message class, never by what a sysex says.
+var knownSysex = [][]byte{
+	{0xF0, 0x7F, 0x7F, 0x01, 0x01, 0x01, 0x02, 0x03, 0x04, 0xF7},                   // MTC full frame
+	{0xF0, 0x7F, 0x00, 0x01, 0x01, 0x61, 0x3B, 0x3B, 0x1D, 0xF7},                   // MTC full frame, device 0, 30 fps
+	{0xF0, 0x7F, 0x7F, 0x01, 0x02, 0x01, 0x02, 0x03, 0x04, 0xF7},                   // MTC user bits (same length)
+	{0xF0, 0x7F, 0x7F, 0x06, 0x02, 0xF7},                                           // MMC play
+	{0xF0, 0x7F, 0x7F, 0x06, 0x01, 0xF7},                                           // MMC stop
+	{0xF0, 0x7F, 0x7F, 0x06, 0x44, 0x06, 0x01, 0x01, 0x02, 0x03, 0x04, 0x05, 0xF7}, // MMC locate
+	{0xF0, 0x7E, 0x7F, 0x06, 0x01, 0xF7},                                           // device inquiry
+	{0xF0, 0x7E, 0x7F, 0x09, 0x01, 0xF7},                                           // GM on
+	{0xF0, 0x7F, 0x7F, 0x04, 0x01, 0x00, 0x7F, 0xF7},                               // master volume
+	{0xF0, 0x41, 0x10, 0x42, 0x12, 0x40, 0x00, 0x7F, 0x00, 0x41, 0xF7},             // GS reset
+	{0xF0, 0x43, 0x10, 0x4C, 0x00, 0x00, 0x7E, 0x00, 0xF7},                         // XG on
+	{0xF0, 0x7E, 0x00, 0x08, 0x00, 0x01, 0xF7},                                     // tuning dump request
+	{0xF0, 0x7E, 0x00, 0x7C, 0x00, 0xF7},                                           // sample dump wait
+	{0xF0, 0x7F, 0x7F, 0x03, 0x01, 0xF7},                                           // MTC cueing-like
+	{0xF0, 0x78, 0x7E, 0xF7},                                                       // payload made of the low bits of F8 / FE
+	{0xF0, 0xF7},
+}
+
+func knownSysexSpace() {
+	const big = 64
+	all := ls.All(big)
+	for _, sx := range knownSysex {
+		for mask := 0; mask < 8; mask++ {
+			o := ls.Options{SysEx: mask&1 != 0, TimeCode: mask&2 != 0, ActiveSense: mask&4 != 0, BufSize: big}
+			raw := append(append([]byte{0x90, 0x10, 0x20}, sx...), 0xF8, 0xFE, 0x80, 0x10, 0x00)
+			n := len(raw)
+			for _, chunks := range [][]int{{n}, nil, {3, len(sx), 5}, {4, n - 4}} {
+				if chunks == nil {
+					for range raw {
+						chunks = append(chunks, 1)
+					}
+				}
+				full := ls.NewLoop(all)
+				rest := ls.NewLoop(o)
+				ctx.Eval()
+				pos := 0
+				for _, c := range chunks {
+					full.Drv.Sleep(2 * time.Millisecond)
+					rest.Drv.Sleep(2 * time.Millisecond)
+					full.Send(raw[pos : pos+c])
+					rest.Send(raw[pos : pos+c])
+					pos += c
+				}
+				want := project(full.Got, o)
+				if len(want) != len(full.Got) {
+					ctx.NontrivialN(1)
+				}
+				if len(sx) > 2 && len(full.Got) != 5 {
+					ctx.Guard(false, "known-sysex space: the all-options listener delivers %d messages for %X", len(full.Got), raw)
+				}
+				if d := diff(want, rest.Got); d != "" {
+					report("filter:"+d+":"+optName(o)+":known-sysex", o, raw, chunks, nil,
+						fmt.Sprintf("with all options [%s]; with %s [%s]", ls.RenderDeliveries(full.Got), optName(o), ls.RenderDeliveries(rest.Got)))
+				}
+				ctx.Add("known_sysex_plays", 1)
+			}
+		}
+	}
+}
+
 func main() {
 	ctx = engine.Start("C14", "model_checking")
 	if ctx.ReplayPath != "" {
@@ -432,6 +497,7 @@ func main() {
 	}
 	ctx.Jobs("sender", len(jobs), func(j int) { senderSpace(jobs[j].o, jobs[j].first) })
 	ctx.Jobs("relisten", len(cs), func(j int) { relistenSpace(j) })
+	ctx.Jobs("known-sysex", 1, func(int) { knownSysexSpace() })
 	nc := len(chunkClasses)
 	ctx.Jobs("long-chunks", nc*nc, func(j int) { chunkSpace(j/nc, j%nc) })
 	ctx.Set("traces_validated_against_impl", ctx.GetInt("transitions"))
